@@ -1,10 +1,205 @@
-/- driver handler for component Cont: requests whose first token belongs to it -/
+/-
+  driver handler for component Cont (property C18): requests
+
+      qset <n> ; <op> ; <op> …          values 0..n-1 are the observed universe
+      linqset <n> ; <op> ; …
+      preds <pred> <pred> … ; <op> ; …   pred = index.sub.arity ; the observed universe
+
+  Runs the whole operation sequence from the empty container on the Lean model and answers
+  one record per operation, ` ; `-separated:
+
+      <outcome>/<state>/<membership bits>/<index()>[/<get()>]
+
+  `<state>` shows every redundant structure (seq|set|len, chain|table|len, seq|set|len|lookup),
+  hash-based ones sorted as strings, so that drift would be visible.  Membership / index / get
+  are computed by the model's own observers (`has`, `Mixin.index`, `Preds.get`), not read off
+  the state.
+-/
 import Ptx.Wire
+import Ptx.Cont.QSet
+import Ptx.Cont.LinqSet
+import Ptx.Cont.Predicates
 namespace Ptx.Drv.Cont
+open Ptx.Cont Ptx.Wire
+
+def lst (xs : List String) : String := if xs.isEmpty then "-" else ",".intercalate xs
+
+def ssort (xs : List String) : List String := xs.mergeSort fun a b => !(b < a)
+
+/-- how values and references of one container kind are written -/
+structure Codec (α ρ : Type) where
+  pv : String → Option α
+  sv : α → String
+  pr : String → Option ρ
+
+def optInt (s : String) : Option (Option Int) := if s = "_" then some none else (intTok s).map some
+
+def parseSlice : Toks → Option (Slice × Toks)
+  | a :: b :: c :: r => do some (⟨← optInt a, ← optInt b, ← optInt c⟩, r)
+  | _ => none
+
+def parseVals {α ρ : Type} (cd : Codec α ρ) : Toks → Option (List α)
+  | k :: r => do
+    let n ← natTok k
+    if r.length ≠ n then none else r.mapM cd.pv
+  | _ => none
+
+def parseOp {α ρ : Type} (cd : Codec α ρ) : Toks → Option (Op α ρ)
+  | ["append", v] => do some (.append (← cd.pv v))
+  | ["add", v] => do some (.add (← cd.pv v))
+  | ["insert", i, v] => do some (.insert (← intTok i) (← cd.pv v))
+  | ["wedge", v, nb, rel] => do some (.wedge (← cd.pv v) (← cd.pv nb) (← intTok rel))
+  | ["remove", r] => do some (.remove (← cd.pr r))
+  | ["discard", v] => do some (.discard (← cd.pv v))
+  | ["pop", i] => do some (.pop (← intTok i))
+  | ["del", i] => do some (.delIdx (← intTok i))
+  | ["set", i, v] => do some (.setIdx (← intTok i) (← cd.pv v))
+  | "dels" :: r => do let (s, r) ← parseSlice r; if r.isEmpty then some (.delSlice s) else none
+  | "sets" :: r => do let (s, r) ← parseSlice r; some (.setSlice s (← parseVals cd r))
+  | "setsN" :: r => do let (s, r) ← parseSlice r; if r.isEmpty then some (.setSliceNonIter s) else none
+  | ["sort", b] => do some (.sort ((← natTok b) ≠ 0))
+  | ["reverse"] => some .reverse
+  | ["clear"] => some .clear
+  | ["copy"] => some .copy
+  | "extend" :: r => do some (.extend (← parseVals cd r))
+  | "update" :: r => do some (.update (← parseVals cd r))
+  | "ior" :: r => do some (.ior (← parseVals cd r))
+  | "iand" :: r => do some (.iand (← parseVals cd r))
+  | "isub" :: r => do some (.isub (← parseVals cd r))
+  | "ixor" :: r => do some (.ixor (← parseVals cd r))
+  | "or" :: r => do some (.or (← parseVals cd r))
+  | "and" :: r => do some (.and (← parseVals cd r))
+  | "sub" :: r => do some (.sub (← parseVals cd r))
+  | "xor" :: r => do some (.xor (← parseVals cd r))
+  | "plus" :: r => do some (.plus (← parseVals cd r))
+  | ["setT", v] => do some (.setBadKey (← cd.pv v))
+  | ["delT"] => some .delBadKey
+  | ["appendU"] => some .appendUnhashable
+  | _ => none
+
+/-- what is shown of one container kind -/
+structure View (C α ρ : Type) where
+  P : Prims C α ρ
+  cd : Codec α ρ
+  state : C → String
+  /-- references whose membership is reported -/
+  memRefs : List ρ
+  /-- values whose `index()` is reported -/
+  idxVals : List α
+  /-- extra observer column (Predicates: `get`) -/
+  extra : Option (C → String)
+
+def showOut {C α ρ : Type} (V : View C α ρ) : Out α C → String
+  | .err e => e.name
+  | .ok .unit => "ok"
+  | .ok (.val a) => "ok=" ++ V.cd.sv a
+  | .ok (.nat n) => s!"ok={n}"
+  | .ok (.bool b) => if b then "ok=1" else "ok=0"
+  | .ok (.list l) => "ok=" ++ lst (l.map V.cd.sv)
+  | .ok (.cont c) => "ok=" ++ V.state c
+
+def record {C α ρ : Type} (V : View C α ρ) (c : C) (o : Out α C) : String :=
+  let mem := String.join (V.memRefs.map fun r => if V.P.has c r then "1" else "0")
+  let idx := lst (V.idxVals.map fun v =>
+    match Mixin.index V.P c (V.P.toRef v) with
+    | .ok i => toString i
+    | .error .missing => "M"
+    | .error .value => "V"
+    | .error e => "!" ++ e.name)
+  let base := [showOut V o, V.state c, mem, idx]
+  "/".intercalate (match V.extra with | some f => base ++ [f c] | none => base)
+
+def runAll {C α ρ : Type} (V : View C α ρ) : C → List (Op α ρ) → List String
+  | _, [] => []
+  | c, op :: ops =>
+    let r := step V.P c op
+    record V r.1 r.2 :: runAll V r.1 ops
+
+def answer {C α ρ : Type} (V : View C α ρ) (opToks : List Toks) : String :=
+  match opToks.mapM (parseOp V.cd) with
+  | none => "err:wire"
+  | some ops => " ; ".intercalate (runAll V V.P.empty ops)
+
+/-! ### the three kinds -/
+
+def natCodec : Codec Nat Nat := ⟨natTok, toString, natTok⟩
+def natLe (a b : Nat) : Bool := a ≤ b
+
+def qsetView (n : Nat) : View (QSet Nat Unit) Nat Nat where
+  P := QSet.prims (plainHooks Nat natLe)
+  cd := natCodec
+  state q := "|".intercalate [lst (q.seq.map toString), lst (ssort (q.set.map toString)), toString q.seq.length]
+  memRefs := List.range n
+  idxVals := List.range n
+  extra := none
+
+def linqsetView (n : Nat) : View (LinqSet Nat) Nat Nat where
+  P := LinqSet.prims
+  cd := natCodec
+  state c := "|".intercalate [lst (c.chain.map toString), lst (ssort (c.table.map toString)), toString c.len]
+  memRefs := List.range n
+  idxVals := List.range n
+  extra := none
+
+def showPred (p : Pred) : String := s!"{p.index}.{p.sub}.{p.arity}"
+
+def parsePred (s : String) : Option Pred :=
+  match s.splitOn "." with
+  | [i, j, k] => do some ⟨← intTok i, ← natTok j, ← natTok k⟩
+  | _ => none
+
+def showRef : Ref → String
+  | .bi i s => s!"b:{i}.{s}"
+  | .spec p => "s:" ++ showPred p
+  | .ident p => "d:" ++ showPred p
+  | .name n => "n:" ++ n
+  | .self p => "p:" ++ showPred p
+
+def parseRef (s : String) : Option Ref :=
+  match s.splitOn ":" with
+  | ["b", x] => (match x.splitOn "." with
+      | [i, j] => do some (.bi (← intTok i) (← natTok j))
+      | _ => none)
+  | ["s", x] => (parsePred x).map .spec
+  | ["d", x] => (parsePred x).map .ident
+  | ["p", x] => (parsePred x).map .self
+  | ["n", x] => some (.name x)
+  | _ => none
+
+def predCodec : Codec Pred Ref := ⟨parsePred, showPred, parseRef⟩
+
+/-- the references observed for a universe predicate, in the harness's order: b s d p [n] -/
+def obsRefs (p : Pred) : List Ref :=
+  [.bi p.index p.sub, .spec p, .ident p, .self p] ++ (match Preds.sysName p with | some n => [.name n] | none => [])
+
+def predsView (uni : List Pred) : View Preds.Store Pred Ref where
+  P := Preds.prims
+  cd := predCodec
+  state q := "|".intercalate
+    [lst (q.seq.map showPred), lst (ssort (q.set.map showPred)), toString q.seq.length,
+     lst (ssort (q.ext.map fun (r, p) => showRef r ++ "=" ++ showPred p))]
+  memRefs := uni.flatMap obsRefs
+  idxVals := uni
+  extra := some fun q => lst ((uni.flatMap obsRefs).map fun r =>
+    match Preds.get q r with
+    | .ok p => showPred p
+    | .error _ => "K")
 
 /-- `none` = not my request -/
 def handle (ts : List String) : Option String :=
   match ts with
+  | "qset" :: r =>
+    (match splitAt ";" r with
+     | [n] :: ops => (match natTok n with | some n => some (answer (qsetView n) ops) | none => some "err:wire")
+     | _ => some "err:wire")
+  | "linqset" :: r =>
+    (match splitAt ";" r with
+     | [n] :: ops => (match natTok n with | some n => some (answer (linqsetView n) ops) | none => some "err:wire")
+     | _ => some "err:wire")
+  | "preds" :: r =>
+    (match splitAt ";" r with
+     | uni :: ops => (match uni.mapM parsePred with | some u => some (answer (predsView u) ops) | none => some "err:wire")
+     | _ => some "err:wire")
   | _ => none
 
 end Ptx.Drv.Cont
